@@ -9,6 +9,7 @@ import PrqlModel.Drv.Rel
 import PrqlModel.Drv.Lex
 import PrqlModel.Drv.Take
 import PrqlModel.Drv.Json
+import PrqlModel.Drv.Rq
 namespace Drv
 
 def handlers : List (List String → Option String) := [
@@ -16,7 +17,8 @@ def handlers : List (List String → Option String) := [
   Drv.Rel.handle,
   Drv.Lex.handle,
   Drv.Take.handle,
-  Drv.Json.handle
+  Drv.Json.handle,
+  Drv.Rq.handle
 ]
 
 def handle (fields : List String) : String :=
